@@ -191,6 +191,11 @@ class LayoutEval:
                 return self._cache[key]
             exprs = mod.assigns.get(name)
             if not exprs:
+                r = self.repo.resolve_module_name(mod, name)
+                if r.kind == "value" and r.mod is not mod:
+                    # re-exported from the module of the package that defines it now
+                    self._cache[key] = self.module_value(r.mod.name, r.name if hasattr(r, "name") else name)
+                    return self._cache[key]
                 raise AnalysisError(f"anchor vanished: {modname}:{name}")
             if len(exprs) != 1:
                 raise AnalysisError(f"{modname}:{name} is assigned {len(exprs)} times")
@@ -532,9 +537,13 @@ class LayoutEval:
     def lazy_num(self, v):
         """a length given as a context function is evaluated when the field is parsed, not when the struct is defined (a lambda
         made in a loop sees the loop variable's final value)"""
+        if isinstance(v, tuple) and len(v) == 2 and v[0] == "func":
+            v = Closure(v[1].node, {}, v[1].module)  # a named context function (def n(ctx): ...) used like a context lambda
         return v if isinstance(v, Closure) else self.num(v)
 
     def num(self, v):
+        if isinstance(v, tuple) and len(v) == 2 and v[0] == "func":
+            v = Closure(v[1].node, {}, v[1].module)
         if isinstance(v, Closure):
             # a context lambda / function used as a length: evaluate it on the symbolic context
             return self.num(self.call_closure(v, [This()], {}))
